@@ -339,11 +339,17 @@ def run(ctx: Ctx):
         ctx.report(f"Model/Storage.v and implementation differ (statement oracle silent): history={h} observed={o['obs']}",
                    {"kind": "hist", "history": h, "conf": conf, "obs": o["obs"]}, no_input=True, kind="correspondence")
     ctx.sample({"history": items[0][0], "conf": items[0][1], "observed_after_each_session": outs[0].get("obs")})
+    # which stored files a trim may remove: the real unused_externals() on generated storage directories and references vs Model/Unused.v
+    from .. import unusedcorr
+    unusedcorr.check_part(ctx, 300 if not ctx.thorough else 4000, "C13")
     lookup_api_cases(ctx)
 
 
 def replay(ctx: Ctx, data):
     c = data["case"]
+    if c.get("kind") == "unused":
+        from .. import unusedcorr
+        return unusedcorr.replay_case(c["case"])
     if c.get("kind") != "hist":
         return True
     h = [tuple(s) for s in c["history"]]
